@@ -147,6 +147,10 @@ class Wsdl11(XmlSchema):
     def build_interface_document(self, url):
         """Build the wsdl for the application."""
 
+        # nodes of an earlier (maybe failed) build belong to another tree
+        self.port_type_dict = {}
+        self.service_elt_dict = {}
+
         self.build_schema_nodes()
 
         self.url = REGEX_WSDL.sub('', url)
